@@ -45,7 +45,8 @@ impl Slot {
     /// Returns a double-ended iterator that yields all the slots in the window `self` is in.
     pub fn slots_in_window(self) -> impl DoubleEndedIterator<Item = Slot> {
         let start = self.first_slot_in_window();
-        (start.0..start.0 + SLOTS_PER_WINDOW).map(Self)
+        // NOTE: inclusive range, the exclusive end would overflow in the last window
+        (start.0..=start.0 + (SLOTS_PER_WINDOW - 1)).map(Self)
     }
 
     /// Returns an infinite iterator that yields all the slots after `self`.
@@ -62,8 +63,8 @@ impl Slot {
     /// Returns the last slow in the window this slot belongs to.
     pub const fn last_slot_in_window(&self) -> Slot {
         let window = self.0 / SLOTS_PER_WINDOW;
-        let next_window = window + 1;
-        Self(next_window * SLOTS_PER_WINDOW - 1)
+        // NOTE: computed from this window, going via the next one overflows in the last window
+        Self(window * SLOTS_PER_WINDOW + (SLOTS_PER_WINDOW - 1))
     }
 
     /// Returns true if `self` is the first slot in the window.
